@@ -356,20 +356,34 @@ pub const KF_MERGE_HEADS: &str = "kf:cycle-heads-merged-with-different-iteration
 /// value. Signature (body log + events of one step): P completed an execution that called H while
 /// H was on the stack, P did not run again in that step, and H was not iterated or finalized as a
 /// cycle head in that step.
+/// Listed finding cyc-kf6: a monotone program whose call ORDER depends on provisional values
+/// (saturating / guarded calls) does not converge: in alternating iterations of the outer head an
+/// inner head is reached through a different path, re-enters its own cycle from its initial value
+/// and pulls the outer value down again; salsa gives up with "too many cycle iterations" although
+/// the least fixpoint exists (also on a fresh database, first request).
+pub const KF_OSCILLATION: &str = "kf:monotone-cycle-with-value-dependent-call-order-does-not-converge";
 pub const KF_ABANDONED: &str = "kf:provisional-member-of-vanished-cycle-accepted-as-final";
 
 
-/// cyc-kf5 signature over a body log (any number of threads): some function completed an execution
-/// that called a function which was on the same thread's stack at that moment, did not run again,
-/// and that function was neither iterated nor finalized as a cycle head. `node_of_id` maps the `Id`
+/// cyc-kf5 signature over a body log (any number of threads): some function P completed an execution
+/// that called a function H which was on the same thread's stack at that moment, P did not run
+/// again, and H either was neither iterated nor finalized as a cycle head, or started again later
+/// (a further iteration or execution) in which P did not run. `node_of_id` maps the `Id`
 /// bits of a `NodeKey` to its node.
 pub fn abandoned_member_signature(recs: &[Rec], node_of_id: &dyn Fn(u64) -> Option<u8>) -> bool {
+    // per thread: stack of open bodies
     let mut open: std::collections::BTreeMap<u32, Vec<u8>> = Default::default();
-    let mut pending: std::collections::BTreeMap<u8, BTreeSet<u8>> = Default::default();
+    // P -> (heads that were on the stack when P last completed, position of that End)
+    let mut pending: std::collections::BTreeMap<u8, (BTreeSet<u8>, usize)> = Default::default();
     let mut iterated: BTreeSet<u8> = BTreeSet::new();
-    for r in recs {
+    // node -> positions of its Start records
+    let mut starts: std::collections::BTreeMap<u8, Vec<usize>> = Default::default();
+    for (i, r) in recs.iter().enumerate() {
         match r {
-            Rec::Start(LKey::Node(n, _), tid) => open.entry(*tid).or_default().push(*n),
+            Rec::Start(LKey::Node(n, _), tid) => {
+                open.entry(*tid).or_default().push(*n);
+                starts.entry(*n).or_default().push(i);
+            }
             Rec::End(rec) => {
                 if let LKey::Node(p, _) = rec.key {
                     let st = open.entry(rec.tid).or_default();
@@ -380,7 +394,7 @@ pub fn abandoned_member_signature(recs: &[Rec], node_of_id: &dyn Fn(u64) -> Opti
                     if on_stack.is_empty() {
                         pending.remove(&p);
                     } else {
-                        pending.insert(p, on_stack);
+                        pending.insert(p, (on_stack, i));
                     }
                 }
             }
@@ -392,7 +406,27 @@ pub fn abandoned_member_signature(recs: &[Rec], node_of_id: &dyn Fn(u64) -> Opti
             _ => {}
         }
     }
-    pending.values().any(|hs| hs.iter().any(|h| !iterated.contains(h)))
+    pending.iter().any(|(p, (hs, at))| {
+        hs.iter().any(|h| {
+            // (i) the head completed without being iterated or finalized as a cycle head, or
+            // (ii) the head started again after P's last execution and P did not run in it
+            let restarted = starts.get(h).map(|v| v.iter().any(|s| s > at)).unwrap_or(false);
+            let p_ran_after = starts.get(p).map(|v| v.iter().any(|s| s > at)).unwrap_or(false);
+            !iterated.contains(h) || (restarted && !p_ran_after)
+        })
+    })
+}
+
+/// does the program contain calls whose execution depends on the value accumulated so far?
+pub fn value_dependent(prog: &Program) -> bool {
+    fn any(ops: &[Op]) -> bool {
+        ops.iter().any(|o| match o {
+            Op::CallSat { .. } | Op::CallMax { .. } => true,
+            Op::If { then, els, .. } => any(then) || any(els),
+            _ => false,
+        })
+    }
+    prog.nodes.iter().any(|n| any(&n.body))
 }
 
 pub struct CycKf {
@@ -508,6 +542,9 @@ impl Oracle for CycKf {
                 {
                     x.rule = KF_BACKDATE_CYCLE.to_string();
                     self.backdate_hits += 1;
+                    self.backdate_rev = Some(cx.rev);
+                } else if x.rule == "unexpected-panic" && x.detail.contains("too many cycle iterations") && value_dependent(prog) {
+                    x.rule = KF_OSCILLATION.to_string();
                     self.backdate_rev = Some(cx.rev);
                 } else if x.rule == "unexpected-panic" && x.detail.contains("Can't merge cycle heads") && x.detail.contains("with different iterations") {
                     x.rule = KF_MERGE_HEADS.to_string();
